@@ -6,7 +6,7 @@
 set -u
 export GOFLAGS=-mod=mod GOPROXY=off GOSUMDB=off GOTOOLCHAIN=local
 id=$1; pkg=$2; tn=$3; shift 3
-W=/tmp/seed-$id; OV=/tmp/seedtools/overlay.json
+W=${SEED_W:-/tmp/seed-$id}; OV=/tmp/seedtools/overlay.json   # second-round seeds: SEED_W=/tmp/seed2-c01 SEED_NAME=C01b
 cd $W || exit 2
 [ -f SEED/patch.diff ] || { echo "no SEED/patch.diff"; exit 2; }
 # normalise: make sure patch is applied
@@ -27,6 +27,6 @@ tail -3 /tmp/seedv-$id-without.log
 git apply SEED/patch.diff
 echo "SUMMARY id=$id demo_with_patch_rc=$rcw demo_without_patch_rc=$rco existing_tests_rc=$rce"
 if [ $rcw -ne 0 ] && [ $rco -eq 0 ] && [ $rce -eq 0 ]; then
-  ID=$(echo $id | tr a-z A-Z); mkdir -p /verif/seeded/$ID; cp -r SEED/* /verif/seeded/$ID/; echo "kept -> /verif/seeded/$ID"
+  ID=${SEED_NAME:-$(echo $id | tr a-z A-Z)}; mkdir -p /verif/seeded/$ID; cp -r SEED/* /verif/seeded/$ID/; echo "kept -> /verif/seeded/$ID"
 fi
 rm -f /tmp/seedv-$id-*.log
